@@ -132,8 +132,10 @@ func c20Rules(p *core.Prog, r *core.Run) {
 					exists, lookup = true, lk
 				}
 			}
-			if f.Op == "!=" && f.L.Op == "call" && f.L.Name == "(*encoding/base64.Encoding).EncodeToString" {
-				differs = true
+			for _, g := range []core.Fact{f, f.Flipped()} {
+				if g.Op == "!=" && g.L.Op == "call" && g.L.Name == "(*encoding/base64.Encoding).EncodeToString" {
+					differs = true
+				}
 			}
 		}
 		r.Check("C20.WHO", "updateRecord:guards", exists && differs, p.InstrPos(call.Instr), "the write happens only when the record exists in the snapshot (%v) and the published value differs from the new one (%v)", exists, differs)
@@ -281,6 +283,10 @@ func c20Params(p *core.Prog, r *core.Run, pub *ssa.Function) {
 	isCut := func(e *core.Expr, idx string) bool {
 		return e.Op == "ext" && e.Name == idx && e.Args[0].Op == "call" && e.Args[0].Name == "strings.Cut" && isPart(e.Args[0].Args[0]) && e.Args[0].Args[1].Name == `"="`
 	}
+	// the same test spelled strings.CutPrefix(p, "ech="): #0 is the value, #1 "found"
+	isCutPrefix := func(e *core.Expr, idx string) bool {
+		return e.Op == "ext" && e.Name == idx && e.Args[0].Op == "call" && e.Args[0].Name == "strings.CutPrefix" && isPart(e.Args[0].Args[0]) && e.Args[0].Args[1].Name == `"ech="`
+	}
 	// back edges: either carry the element over, or skip it under exactly {Cut ok, key == "ech"}
 	var newParams *ssa.Phi
 	for _, in := range hdr.Instrs {
@@ -298,23 +304,44 @@ func c20Params(p *core.Prog, r *core.Run, pub *ssa.Function) {
 		return
 	}
 	nKeep, nSkip := 0, 0
-	for i, e := range newParams.Edges {
-		pred := hdr.Preds[i]
-		if !body[pred] {
-			continue
+	// the ways round the loop: a back edge, or (when the ways merge before the
+	// back edge, as with a post statement) each edge of the merging φ
+	type way struct {
+		val  ssa.Value
+		fs   []core.Fact
+		last *ssa.BasicBlock
+	}
+	var ways []way
+	var expand func(v ssa.Value, fs []core.Fact, last *ssa.BasicBlock, depth int)
+	expand = func(v ssa.Value, fs []core.Fact, last *ssa.BasicBlock, depth int) {
+		if ph, ok := v.(*ssa.Phi); ok && ph != newParams && body[ph.Block()] && depth < 4 {
+			for k, e := range ph.Edges {
+				expand(e, append(append([]core.Fact{}, fs...), p.EdgeFacts(ph.Block().Preds[k], ph.Block())...), ph.Block().Preds[k], depth+1)
+			}
+			return
 		}
+		ways = append(ways, way{v, fs, last})
+	}
+	for i, e := range newParams.Edges {
+		if pred := hdr.Preds[i]; body[pred] {
+			expand(e, p.EdgeFacts(pred, hdr), pred, 0)
+		}
+	}
+	for _, w := range ways {
+		e, pred := w.val, w.last
 		if e == ssa.Value(newParams) {
 			// skipped
 			nSkip++
-			fs := p.EdgeFacts(pred, hdr)
 			okCut, okKey := false, false
 			extra := ""
-			for _, f := range fs {
+			for _, f := range w.fs {
 				switch {
 				case f.Op == "true" && isCut(f.L, "#2"):
 					okCut = true
 				case f.Op == "==" && isCut(f.L, "#0") && f.R.Name == `"ech"`:
 					okKey = true
+				case f.Op == "true" && isCutPrefix(f.L, "#1"):
+					okCut, okKey = true, true
 				case f.L.Op == "bin" || f.L.Op == "call" && f.L.Name == "len" || f.R != nil && f.R.Op == "call" && f.R.Name == "len":
 					// loop bounds
 				case f.L.Op == "ext" && f.L.Name == "#1" || f.Op == "true" && f.L.Op == "ext":
@@ -325,7 +352,7 @@ func c20Params(p *core.Prog, r *core.Run, pub *ssa.Function) {
 					}
 				}
 			}
-			r.Check("C20.PARAM", "param-loop:skip", okCut && okKey && extra == "", p.InstrPos(pred.Instrs[len(pred.Instrs)-1]), "a parameter is dropped exactly when Cut(p, \"=\") succeeds (%v) with key \"ech\" (%v) - quoted or unquoted values alike %s", okCut, okKey, extra)
+			r.Check("C20.PARAM", "param-loop:skip", okCut && okKey && extra == "", p.InstrPos(pred.Instrs[len(pred.Instrs)-1]), "a parameter is dropped exactly when it has the key \"ech\" (Cut(p, \"=\") succeeds: %v, with key \"ech\": %v; or CutPrefix(p, \"ech=\")) - quoted or unquoted values alike %s", okCut, okKey, extra)
 			continue
 		}
 		c, ok := e.(*ssa.Call)
@@ -358,14 +385,16 @@ func c20Params(p *core.Prog, r *core.Run, pub *ssa.Function) {
 	for _, b := range pub.Blocks {
 		if iff, ok := b.Instrs[len(b.Instrs)-1].(*ssa.If); ok {
 			f := p.FactOf(core.Guard{Cond: iff.Cond, Pol: true, If: iff})
-			if f.Op == "==" && f.L.Op == "call" && f.L.Name == "(*encoding/base64.Encoding).EncodeToString" && f.R != nil {
-				good := false
-				for _, a := range f.R.Alts() {
-					if a.Op == "call" && a.Name == "strings.Trim" && isCut(a.Args[0], "#1") && a.Args[1].Name == `"\""` {
-						good = true
+			for _, g := range []core.Fact{f, f.Flipped()} {
+				if g.Op == "==" && g.L.Op == "call" && g.L.Name == "(*encoding/base64.Encoding).EncodeToString" && g.R != nil {
+					good := false
+					for _, a := range g.R.Alts() {
+						if a.Op == "call" && a.Name == "strings.Trim" && (isCut(a.Args[0], "#1") || isCutPrefix(a.Args[0], "#0")) && a.Args[1].Name == `"\""` {
+							good = true
+						}
 					}
+					okOld = good
 				}
-				okOld = good
 			}
 		}
 	}
